@@ -57,14 +57,15 @@ def colLoop : Nat → List Nat → Nat → Except PErr Nat
 /-- `Mapper.PositionOffset` -/
 def positionOffset (bs : List Nat) (line char : Nat) : Except PErr Nat :=
   let ls := lineStarts bs
-  if h : line < ls.length then
-    let off := ls[line]
+  match ls[line]? with
+  | some off =>                                   -- p.Line < len(m.lineStart)
     match colLoop char (bs.drop off) 0 with
     | .ok c => .ok (off + c)
     | .error e => .error e
-  else if line = ls.length then
-    if char = 0 then .ok bs.length else .error .eofCol
-  else .error .lineRange
+  | none =>
+    if line = ls.length then
+      if char = 0 then .ok bs.length else .error .eofCol
+    else .error .lineRange                        -- p.Line > len(m.lineStart)
 
 structure Pos where
   line : Nat
@@ -292,11 +293,14 @@ def serverRun (stored : List Nat) : List Notif → List Nat
   | [] => stored
   | n :: rest => serverRun (serverStep stored n) rest
 
-/-- notifications the server handles: a single full change, or incremental changes only -/
+def isIncr : CChange → Bool
+  | .incr _ _ => true
+  | .full _ => false
+
+/-- notifications the server handles: incremental changes only, or a single (then: full) change -/
 def NotifShape : Notif → Bool
   | .open _ => true
-  | .change [.full _] => true
-  | .change cs => cs.all (fun c => match c with | .incr _ _ => true | .full _ => false)
+  | .change cs => cs.all isIncr || cs.length == 1
 
 /-- the history is one a client could send: every document state has no lone `\r`, every
 notification has a supported shape and every range is valid in the state it applies to.
